@@ -1,6 +1,7 @@
 """C17 - dual tables report each multiplier at the pair of points it belongs to.
 
-Every class x declaration pattern (stationary point first / last / twice) x {1, 2 steps} x {named, unnamed points and
+Every class x declaration pattern (stationary point first / last / twice / never, for the classes that then record one
+themselves) x parameter tuple x {1, 2 steps} x {named, unnamed points and
 function} x {plain, with a composite partner, with a second function} of the grammar is solved once; for every leaf
 function the tables returned by get_class_constraints_duals() are compared cell by cell with a reference built from the
 documented conditions instantiated by sample identity (mc.catalog.conditions): cell (i, j) must hold the multiplier of the
@@ -32,9 +33,15 @@ def cases(tier):
                         spec.update(named=True, fname="func")
                     out.append(spec)
         out.append(dict(cls=cls, par=0, pattern="sf", metric=info["metrics"][0], init="dist", n=1, extras=["second_function", "dup_eval"]))
-        if tier != "quick":
-            for par in range(1, len(info["params"])):
-                out.append(dict(cls=cls, par=par, pattern="sl", metric=info["metrics"][-1], init="dist", n=2))
+        for par in range(1, len(info["params"])):
+            # the other parameter tuples (finite M / D, other constants): options that switch conditions on
+            out.append(dict(cls=cls, par=par, pattern="sl", metric=info["metrics"][-1], init="dist", n=2))
+            if tier != "quick":
+                out.append(dict(cls=cls, par=par, pattern="sf", metric=info["metrics"][0], init="dist", n=1, named=True, fname="func"))
+        if cls in ("ConvexQGFunction", "RsiEbFunction"):
+            # the user never declares a stationary point: the class records one itself while generating its constraints
+            for n in (1, 2):
+                out.append(dict(cls=cls, par=0, pattern="none", metric="negdist", init="dist", n=n))
     for cls in sorted(models.SMOOTH | models.NONSMOOTH):
         out.append(dict(cls=cls, par=0, pattern="sf", comp="sum", step="prox", metric="dist", init="dist", n=1))
         out.append(dict(cls=cls, par=0, pattern="sl", comp="weighted", step="prox", metric="dist", init="dist", n=2, named=True))
